@@ -65,6 +65,16 @@ func pathCondition(fc *formCtx, stmts []ast.Stmt, target ast.Node) (*bform, bool
 			case *ast.BlockStmt:
 				inner, _ := pathCondition(fc, x.List, target)
 				return and(append(acc, inner)...), true
+			case *ast.SwitchStmt:
+				for _, cl := range x.Body.List {
+					if cc, ok := cl.(*ast.CaseClause); ok && contains(cc) {
+						inner, _ := pathCondition(fc, cc.Body, target)
+						return and(append(acc, inner)...), true
+					}
+				}
+			case *ast.LabeledStmt:
+				inner, _ := pathCondition(fc, []ast.Stmt{x.Stmt}, target)
+				return and(append(acc, inner)...), true
 			case *ast.ForStmt:
 				inner, _ := pathCondition(fc, x.Body.List, target)
 				return and(append(acc, inner)...), true
@@ -155,18 +165,54 @@ func checkC04(p *Program, r *Result) {
 			r.undecided("C04.a", fname, "window predicate", "", "function not found")
 			continue
 		}
-		ifs := findIfs(fc, fd, t, start)
-		if len(ifs) == 0 {
-			ifs = findIfs(fc, fd, t, end)
-		}
-		if len(ifs) == 0 {
-			r.violated("C04.a", fname, "window predicate", p.pos(fd.Pos()), "no condition relates the message log time to the window bounds; the time window is not applied")
+		// the statements that yield a message: the return of a non-nil message with a nil error (sequential), the append
+		// to the message index queue (index-based); their path condition, restricted to the conjuncts that mention the
+		// log time, is the window predicate - whatever mix of nested ifs and early-exit guards expresses it
+		var targets []ast.Node
+		ast.Inspect(fd.Body, func(n ast.Node) bool {
+			switch x := n.(type) {
+			case *ast.FuncLit:
+				return false
+			case *ast.ReturnStmt:
+				if site.meth == "NextInto" && len(x.Results) == 4 && types.ExprString(x.Results[3]) == "nil" && types.ExprString(x.Results[2]) != "nil" {
+					targets = append(targets, x)
+				}
+			case *ast.AssignStmt:
+				if site.meth == "loadChunk" && len(x.Lhs) == 1 && len(x.Rhs) == 1 && strings.HasSuffix(types.ExprString(x.Lhs[0]), ".messageIndexes") {
+					if ce, ok := x.Rhs[0].(*ast.CallExpr); ok && g.isBuiltin(ce, "append") {
+						targets = append(targets, x)
+					}
+				}
+			}
+			return true
+		})
+		if len(targets) == 0 {
+			r.undecided("C04.a", fname, "window predicate", p.pos(fd.Pos()), "no statement that yields a message found")
 			continue
 		}
-		for _, iff := range ifs {
-			y := fc.form(iff.Cond)
+		for _, tg := range targets {
+			pc, _ := pathCondition(fc, fd.Body.List, tg)
+			var kept []*bform
+			var flat func(f *bform)
+			flat = func(f *bform) {
+				if f.op == "and" {
+					for _, k := range f.kids {
+						flat(k)
+					}
+					return
+				}
+				if f.mentions(t) {
+					kept = append(kept, f)
+				}
+			}
+			flat(pc)
+			pos := p.pos(tg.Pos())
+			if len(kept) == 0 {
+				r.violated("C04.a", fname, "window predicate", pos, "no condition on the path to the yield relates the message log time to the window bounds; the time window is not applied")
+				continue
+			}
+			y := and(kept...)
 			yieldForms = append(yieldForms, y.String())
-			pos := p.pos(iff.Pos())
 			if ce := counterexample(ref, y, nil); ce != "" {
 				r.violated("C04.a", fname, "window predicate", pos, "a message inside the window [start,end) is not yielded when "+ce+"; predicate: "+y.String())
 			} else if ce := counterexample(y, ref, nil); ce != "" {
